@@ -33,6 +33,8 @@ import Strengths.Proofs.Kinetics
 import Strengths.Proofs.Units
 import Strengths.Proofs.Grid
 import Strengths.Proofs.GridRate
+import Strengths.Proofs.KineticsPy
+import Strengths.Proofs.KineticsGrid
 
 namespace Strengths.C01
 open Strengths Strengths.Gen Strengths.Spec
@@ -139,6 +141,29 @@ example : engGridOKCheck ⟨3, 2, 1, true, false, true⟩ = true := by decide +k
 example : engGridOKCheck ⟨2, 2, 2, true, true, false⟩ = true := by decide +kernel
 example : engGridOKCheck ⟨1, 1, 1, true, true, true⟩ = true := by decide +kernel
 example : engGridOKCheck ⟨4, 3, 2, false, true, false⟩ = true := by decide +kernel
+
+/-! ## The Python kinetics functions realise the rate law -/
+
+/-- **kinetics_eq_rate, grids** — for every valid grid (all sizes and boundary settings), every network, every state, every
+entry: whenever `compute_dspeciesdt(apply_chemostats=False)` returns, the SI value it returns IS the rate law
+(`V = h³`: the cell edge is the cube root of the cell volume).  The Python neighbour enumeration (`w > 1` guards, Python
+`%`, `is_within_bounds`, `get_cell_index`) is proved to list the Spec's six-neighbourhood minus the cell itself
+(`pyGridNeighbors_eq`), the coordinate round trip to be the identity (`pyGridSrc_eq`). -/
+theorem kinetics_eq_rate_grid (sys : PySys) (g : GridShape) (vol : Q) (edge : Rat) (env : List Nat)
+    (hsp : sys.space = .grid g vol edge env) (hv : g.valid = true) (hV : vol.si = edge ^ 3)
+    (s i : Nat) (hi : i < g.size) (x : PyState) (q : Q) (h : pyDspeciesdt sys s i x false = .ok q) :
+    q.si = rate (physOfPy sys (fun k => gridFaces g.w g.h g.d g.px g.py g.pz edge k)) (stOf sys.space.size x) s i :=
+  kinetics_value_grid sys g vol edge env hsp hV s i x q h (pyGridSrc_eq hv i) (pyGridNeighbors_eq hv hi)
+
+/-- **kinetics_eq_rate, graphs** — whenever `compute_dspeciesdt(apply_chemostats=False)` returns, its SI value is the rate law
+over the interfaces the Python loop visits (`pyFaces`: one per distinct neighbour, through the first edge `get_edge` finds);
+on a graph without parallel edges and self-loops these are the Spec's interfaces up to order (`hperm`; the statement's own
+restriction — with parallel edges the Python functions use one of them only) -/
+theorem kinetics_eq_rate_graph (sys : PySys) (nodes : List PyNode) (edges : List PyEdge) (hsp : sys.space = .graph nodes edges)
+    (s i : Nat) (x : PyState) (q : Q) (h : pyDspeciesdt sys s i x false = .ok q)
+    (hperm : (pyFaces nodes.length edges i).Perm (graphFaces (edgesSI edges) i)) :
+    q.si = rate (physOfPy sys (fun k => graphFaces (edgesSI edges) k)) (stOf sys.space.size x) s i :=
+  kinetics_value_graph sys nodes edges hsp s i x q h hperm
 
 /-! ## Marshalling -/
 
